@@ -101,10 +101,6 @@ func run(c Case) (res ev.Result) {
 		res.Violation = fmt.Sprintf("write/read of the tempo file failed: %v %s", err, p)
 		return
 	}
-	if got := back.TempoChanges(); len(got) != len(changes) {
-		res.Violation = fmt.Sprintf("tempo map has %d entries, file has %d tempo events", len(got), len(changes))
-		return
-	}
 	// queries: sorted
 	qs := append([]int64{}, c.Queries...)
 	sort.Slice(qs, func(i, j int) bool { return qs[i] < qs[j] })
